@@ -232,7 +232,7 @@ def junk(rng):
     return copy.deepcopy(rng.choice(JUNK))
 
 
-_TIME_ONLY = re.compile(r"(?<![0-9T:.+-])\d{1,2}:\d{2}")
+_TIME_ONLY = re.compile(r"(?<![0-9T:.+-])\d{1,2}:\d{1,2}")
 
 
 def env_relative_value(v) -> bool:
